@@ -168,8 +168,14 @@ class OsTr:
                 raise Unsupported("call of " + str(fn))
             if rc.get("kind") == "CXXMemberCallExpr" and any(n.get("kind") == "MemberExpr" and n.get("name") == "fetch_add" for n in walk(rc["inner"][0])):
                 # x = counter.fetch_add(d) on std::atomic<unsigned long long>: the old value; the counter wraps at 64 bits (atomicity: C18)
-                cn = [n for n in walk(rc["inner"][0]) if n.get("kind") == "DeclRefExpr"][0]["referencedDecl"]["name"]; cf = self.field(cn); f = self.field(name); d_ = self.pure(rc["inner"][1])
-                return "(sassign (fun s => Some (set_%s (set_%s s (%s s)) (uw 64 ((%s s) + %s)))))" % (cf, f, cf, cf, d_)
+                cd = [n for n in walk(rc["inner"][0]) if n.get("kind") == "DeclRefExpr"][0]
+                cn = cd["referencedDecl"]["name"]; cf = self.field(cn); f = self.field(name); d_ = self.pure(rc["inner"][1])
+                # the width at which the counter wraps is the width of the atomic's value type (std::atomic<unsigned long long>: 64)
+                tq = cd.get("type", {}); tq = tq.get("desugaredQualType", tq.get("qualType", ""))
+                m_ = re.search(r"atomic<([^<>]*)>", tq)
+                if not m_ or m_.group(1).strip() not in c2c.TYPES or c2c.TYPES[m_.group(1).strip()][0] != 0: raise Unsupported("fetch_add on %s" % tq)
+                cw = c2c.TYPES[m_.group(1).strip()][1]
+                return "(sassign (fun s => Some (set_%s (set_%s s (%s s)) (uw %d ((%s s) + %s)))))" % (cf, f, cf, cw, cf, d_)
             return self.assign_scalar(name, r)
         if k == "CompoundAssignOperator":
             l = strip(s["inner"][0]); name = l["referencedDecl"]["name"]; op = s["opcode"][:-1]
